@@ -22,9 +22,13 @@ def generate(tier, seed):
                       "cost": 100 if name in sources.PROTEINS else 4})
     for name in sources.PROTEINS:
         cases.append({"kind": "file", "file": name, "opt": "-d", "seed": "%d:%s:d" % (seed, name), "cost": 100})
+        cases.append({"kind": "file", "file": name, "variant": 1, "seed": "%d:%s:v" % (seed, name), "cost": 120})
     n = 150 if tier == "quick" else 4000
     for k in range(n):
         cases.append({"kind": "cutout", "seed": "%d:cut:%d" % (seed, k), "cost": 12})
+    n = 40 if tier == "quick" else 800
+    for k in range(n):
+        cases.append({"kind": "samelabel", "seed": "%d:sl:%d" % (seed, k), "cost": 14})
     return cases
 
 
@@ -55,6 +59,44 @@ def cluster_cutout(rng):
     return out
 
 
+_PAIRS = None
+
+
+def same_type_neighbours():
+    """(file, index) of residues followed in the chain by a residue of the same ionizable type."""
+    global _PAIRS
+    if _PAIRS is None:
+        from .. import sources
+        _PAIRS = []
+        for name in sources.PROTEINS:
+            rl = sources.residue_list(sources.no_water(sources.repo_recs(name)))
+            for i in range(len(rl) - 1):
+                a, b = rl[i], rl[i + 1]
+                if (a.key[0] == b.key[0] == "ATOM  " and a.key[1] == b.key[1] and a.key[4] == b.key[4] and not b.ter_before
+                        and a.key[4] in ("ASP", "GLU", "LYS", "ARG", "HIS", "TYR", "CYS") and a.key[3] == b.key[3] == " "):
+                    _PAIRS.append((name, i))
+    return _PAIRS
+
+
+def same_label_twin_cutout(rng):
+    """Cut-out around two consecutive residues of the same ionizable type, the second renumbered
+    as an insertion-coded twin of the first: both get the same printed label, so their partners
+    hold several determinants towards one partner label."""
+    from .. import sources
+    name, i = rng.choice(same_type_neighbours())
+    full = sources.no_water(sources.repo_recs(name))
+    rl = sources.residue_list(full)
+    first, second = rl[i], rl[i + 1]
+    out = []
+    for r in full:
+        if r.raw is None and (r.tag, r.chain, r.resnum, r.icode, r.resn) == second.key:
+            r = r.copy()
+            r.resnum, r.icode = first.key[2], "A"
+        out.append(r)
+    cut, _ = sources.cutout(out, rng, rng.choice((10, 13, 16)), center=i)
+    return cut
+
+
 def run_case(case, tier):
     from .. import contracts, obs, pdbio, sources, util
     from ..monitors import swap
@@ -63,10 +105,26 @@ def run_case(case, tier):
     viol, counts, classes = [], {}, []
     if case["kind"] == "file":
         recs = sources.repo_recs(case["file"])
+    elif case["kind"] == "samelabel":
+        recs = same_label_twin_cutout(rng)
+        classes.append("same-label-twins")
     elif rng.random() < 0.8:
         recs = cluster_cutout(rng)
     else:
         recs, _ = sources.chimera(rng)
+    extra = []
+    if case["kind"] != "file" or case.get("variant"):
+        u = rng.random()
+        if u < 0.3:
+            # insertion-coded twins: several determinants of one group carry the same partner label
+            from .c06 import make_twins
+            recs, ntw = make_twins(sources.no_water(recs), rng)
+            if ntw:
+                classes.append("twins")
+        extra = rng.choice(([], [], [], ["--log-level", "DEBUG"], ["-q"], ["--protonate-all"], ["--log-level", "WARNING"],
+                            ["-g", "0.0", "14.0", "0.5"]))
+        if extra:
+            classes.append("options:" + extra[0].lstrip("-") + (("=" + extra[1]) if extra[0] == "--log-level" else ""))
     text = pdbio.dump(recs)
     desc = sources.describe(recs)
     desc.update({"kind": case["kind"], "file": case.get("file")})
@@ -79,14 +137,14 @@ def run_case(case, tier):
         classes.append("display-mode")
         nsw = contracts.COUNTS.get("coupling_contract_with_swap", 0)
         return util.finish(case, viol, counts, classes, nsw > 0, desc)
-    on = obs.run_single(text, keep_mol=True)
+    on = obs.run_single(text, extra, keep_mol=True)
     nsw = contracts.COUNTS.get("coupling_contract_with_swap", 0)
     if on.mol is not None:
         swap.check_symmetry_and_stars(on.mol, viol, counts)
     old = cg.NCCG.do_prot_stat
     try:
         cg.NCCG.do_prot_stat = False
-        off = obs.run_single(text)
+        off = obs.run_single(text, extra)
     finally:
         cg.NCCG.do_prot_stat = old
     counts["pipeline_runs"] = 2
@@ -101,6 +159,12 @@ def run_case(case, tier):
         viol.append({"cls": "analysis-changes-results", "msg": "records differ with/without the coupling analysis: %s" % obs.brief(diffs, 4)})
     # the disabled run must not have registered couplings at all
     ncoupled = sum(1 for g in on.rec["confs"][on.rec["names"][0]]["groups"] if g["ncov"])
+    for g in on.rec["confs"][on.rec["names"][0]]["groups"]:
+        if g["titratable"]:
+            for t in ("sidechain", "coulomb"):
+                labs = [d[2] for d in g["det"][t]]
+                if len(labs) != len(set(labs)):
+                    classes.append("several-determinants-towards-one-partner-label")
     if ncoupled:
         classes.append("coupling-registered")
     if nsw:
